@@ -44,7 +44,7 @@ def run(ctx):
     rng = ctx.rng
     dbs = bind_all()
     sch = Q.schema_json()
-    n_frag, n_ext = ctx.scale(260, 3000), ctx.scale(90, 1000)
+    n_frag, n_ext = ctx.scale(600, 6000), ctx.scale(200, 2000)
     gen = Q.Gen(rng, 'frag'); ext = Q.ExtGen(rng)
     exprs = [('witness', WITNESS)] + [('frag', gen.expr(rng.choice([1, 2, 2, 3, 3, 4]))) for _ in range(n_frag)] + [('ext', ext.expr(rng.choice([1, 2, 3]))) for _ in range(n_ext)]
     rows = [Q.random_row(rng) for _ in range(ctx.scale(10, 24))]
